@@ -320,30 +320,39 @@ def _readreg_prefix(ctx, rule, fn='generateProgramPrologue', names=('readReg2', 
     def is_emit(s):
         t = strip_all(s)
         return t['k'] == 'Call' and t.get('name') in ('emit', 'emitByte', 'emit32')
-    idx = {}
-    for i, s in enumerate(body):
-        t = strip_all(s)
-        if t['k'] == 'Call' and t.get('name') == 'emitByte':
-            txt = show(t['a'][0])
-            for nm in names:
-                if nm in txt:
-                    idx.setdefault(nm, i)
-    if set(idx) != set(names) or not idx[names[0]] < idx[names[1]]:
-        raise AnalysisBroken('%s: the statements that emit the %s / %s operand bytes were not found at the top level of %s' % (rule, names[0], names[1], fn))
-    lo = idx[names[0]]
-    while lo > 0 and is_emit(body[lo - 1]):
-        lo -= 1
-    run = body[lo:idx[names[1]] + 1]
-    if not all(is_emit(s) for s in run):
-        raise AnalysisBroken('%s: statements other than emit calls between the %s and %s operand bytes in %s' % (rule, names[0], names[1], fn))
     p = [q for q in g['params'] if 'ProgramConfiguration' in (q.get('ty') or '')]
     if len(p) != 1:
         raise AnalysisBroken('%s: %s has no ProgramConfiguration parameter' % (rule, fn))
     pn = p[0]['name']
 
+    def cfg_byte(s):
+        t = strip_all(s)
+        return t['k'] == 'Call' and t.get('name') == 'emitByte' and (pn + '.') in show(t['a'][0])
+    # the run of consecutive emit statements around the operand bytes taken from the program configuration: the last such run of the
+    # prologue generator, the first of the epilogue generator; it ends with its last configuration byte
+    cand = [i for i, s in enumerate(body) if cfg_byte(s)]
+    if not cand:
+        raise AnalysisBroken('%s: no emitByte of a ProgramConfiguration member at the top level of %s' % (rule, fn))
+    anchor = cand[-1] if fn.endswith('Prologue') else cand[0]
+    lo = anchor
+    while lo > 0 and is_emit(body[lo - 1]):
+        lo -= 1
+    hi = anchor
+    k = anchor + 1
+    while k < len(body) and is_emit(body[k]):
+        if cfg_byte(body[k]):
+            hi = k
+        k += 1
+    run = body[lo:hi + 1]
+    if sum(1 for s in run if cfg_byte(s)) != 2:
+        raise AnalysisBroken('%s: expected two operand bytes taken from the program configuration in one run of emit statements in %s, found %d' % (rule, fn, sum(1 for s in run if cfg_byte(s))))
+
     def emit(ra, rb):
         ex = X.X86Exec(F, cls, {}, {})
-        ev = KBEval(F, {'%s.%s' % (pn, names[0]): KB.const(32, ra), '%s.%s' % (pn, names[1]): KB.const(32, rb)}, 0, {})
+        others = [r for r in range(8) if r not in (ra, rb)]
+        env = {'%s.%s' % (pn, nm): KB.const(32, others[k]) for k, nm in enumerate(n for n in ('readReg0', 'readReg1', 'readReg2', 'readReg3') if n not in names)}
+        env.update({'%s.%s' % (pn, names[0]): KB.const(32, ra), '%s.%s' % (pn, names[1]): KB.const(32, rb)})
+        ev = KBEval(F, env, 0, {})
         for s in run:
             ex._stmt(g, s, ev, 0)
         return tuple(ex.bytes)
@@ -482,3 +491,156 @@ def rule_dsread(ctx, R):
         raise AnalysisBroken('X86-DSREAD-HSEM: ' + undecided[0])
     for u in undecided:
         R.note('X86-DSREAD-HSEM: ' + u)
+
+
+# ---------------------------------------------------------------------------------------------------------------------------
+# [X86-SPMIX-HSEM] the two scratchpad addresses of an iteration (specification 4.6.2 step 1) in the x86-64 back-end
+AXDX = {'rax': 'rax', 'eax': 'rax', 'ax': 'rax', 'al': 'rax', 'ah': 'rax', 'rdx': 'rdx', 'edx': 'rdx', 'dx': 'rdx', 'dl': 'rdx', 'dh': 'rdx'}
+
+
+def rule_spmix(ctx, R):
+    import astq
+    from rules import x86hsem as X
+    from rules import rvhsem as V
+    from rules import a64hsem as T
+    from rules import bitlin
+    from rules.a64hsem import const, atom, xor, ror
+    if X.STRICT_FAMILY:
+        R.note('rule_spmix (x86) skipped: RXVERIF_STRICT_FAMILY=1 (evaluation on terms switched off, see DESIGN.md 9.2)')
+        return
+    R.rule('X86-SPMIX-HSEM', 'the two scratchpad addresses of an iteration in the x86-64 back-end (specification 4.6.2 step 1): the bytes the epilogue generator emits for readReg0 ^ readReg1 followed by the hand-written '
+           'piece up to randomx_prefetch_scratchpad_end, executed on terms, leave rax = low half and rdx = high half of the 64-bit XOR, each under ScratchpadL3Mask64; the prologue leaves mx and ma there for the first '
+           'iteration and rbp = ma in the low half; the loop head reads the integer registers at rsi + rax and the floating-point registers at rsi + rdx; the three end-of-iteration fragments give rax and rdx back '
+           'as they found them (a write or a call in between must be bracketed by a save to and a restore from the same stack slot)', min_instances=20)
+    FI = astq.Facts(ctx, 'K0')
+    mask = FI.const('randomx::ScratchpadL3Mask64')
+    g, emit = _readreg_prefix(ctx, 'X86-SPMIX-HSEM', fn='generateProgramEpilogue', names=('readReg0', 'readReg1'))
+    R.saw(fn=g['q'])
+    o = ctx.obj('x86')
+    R.saw(unit='src/jit_compiler_x86_static.S', config='K0')
+    Mc = _ds_machine()
+    pairs = ((0, 1), (2, 7), (5, 5), (7, 3))
+    pre = {p: emit(*p) for p in pairs}
+    dec = X.disassemble(list(pre.values()))
+    undecided, nviol = [], [0]
+
+    def compare(inst, got, want, where, tr):
+        verdict, how = bitlin.decide(got, want)
+        if verdict == 'eq':
+            R.ok(inst, where)
+        elif verdict == 'unknown':
+            undecided.append('%s is %s, the specification says %s; equivalence undecided' % (inst, T.term_show(got, None), T.term_show(want, None)))
+        else:
+            nviol[0] += 1
+            R.violation(inst, where, expected=T.term_show(want, None), found='%s after `%s`; %s' % (T.term_show(got, None), ' ; '.join(tr[-8:]), how))
+
+    where = 'src/jit_compiler_x86_static.S:randomx_prefetch_scratchpad'
+    piece = [(i[1], i[2]) for i in o.between('randomx_prefetch_scratchpad', 'randomx_prefetch_scratchpad_end')]
+    if not piece:
+        raise AnalysisBroken('X86-SPMIX-HSEM: randomx_prefetch_scratchpad is empty')
+    for (ra, rb) in pairs:
+        m = Mc()
+        tr = []
+        for mn, ops, _n, _o in dec[pre[(ra, rb)]]:
+            if not m.step(mn, ops):
+                raise AnalysisBroken('X86-SPMIX-HSEM: generated instruction `%s %s` has no meaning in the term machine' % (mn, ops))
+            tr.append('%s %s' % (mn, ops))
+        for mn, ops in piece:
+            if not m.step(mn, ops):
+                raise AnalysisBroken('X86-SPMIX-HSEM: instruction `%s %s` of randomx_prefetch_scratchpad has no meaning in the term machine' % (mn, ops))
+            tr.append('%s %s' % (mn, ops))
+        mix = xor(atom(('reg', ra)), atom(('reg', rb)))
+        tag = 'readReg r%d,r%d ' % (ra, rb)
+        compare(tag + 'spAddr0 (rax)', m.get(0), X.and_(mix, const(mask)), where, tr)
+        compare(tag + 'spAddr1 (rdx)', m.get(2), X.and_(V.srl(mix, 32), const(mask)), where, tr)
+        for k in range(8):
+            compare(tag + 'r%d unchanged' % k, m.get(8 + k), atom(('reg', k)), where, tr)
+        compare(tag + 'mx:ma (rbp) unchanged', m.get(5), atom(('undef', 5)), where, tr)
+        if m.stores:
+            nviol[0] += 1
+            R.violation(tag + 'stores', where, expected='no store', found='%d stores' % len(m.stores))
+    # first iteration: the prologue, from the load of mx:ma to the jump into the loop
+    pro = _frag(o, 'X86-SPMIX-HSEM', 'randomx_program_prologue')
+    where = 'src/jit_compiler_x86_static.S:randomx_program_prologue'
+    k0 = next((k for k, i in enumerate(pro) if i[1] == 'mov' and re.match(r'^rbp\s*,\s*QWORD PTR \[rsi\]$', re.sub(r'\s*#.*$', '', i[2]).strip())), None)
+    k1 = next((k for k, i in enumerate(pro) if i[1] == 'jmp'), None)
+    if k0 is None or k1 is None or k1 < k0:
+        raise AnalysisBroken('X86-SPMIX-HSEM: `mov rbp, [rsi]` ... `jmp` not found in the prologue')
+    m = Mc()
+    m.r[6] = atom(('undef', 6))
+    tr = []
+    for off, mn, ops, raw in pro[k0:k1]:
+        ops_ = re.sub(r'\s*#.*$', '', ops)
+        p0 = ops_.split(',')[0].strip() if ops_ else ''
+        if p0.startswith('xmm') or mn.startswith('prefetch'):
+            continue
+        if mn == 'xor' and len(ops_.split(',')) == 2 and ops_.split(',')[0].strip() == ops_.split(',')[1].strip() and p0 in X.REG64:
+            m.r[X.REG64[p0]] = const(0)
+            continue
+        if mn == 'and' and p0 in X.REG32 and X.REG32[p0] >= 8:
+            m.r[X.REG32[p0]] = atom(('undef', 100 + X.REG32[p0]))       # prefetch addresses of the prologue: not part of this rule
+            continue
+        if mn == 'mov' and p0 in X.REG32 and X.REG32[p0] >= 8:
+            m.r[X.REG32[p0]] = atom(('undef', 100 + X.REG32[p0]))
+            continue
+        if not m.step(mn, ops_):
+            raise AnalysisBroken('X86-SPMIX-HSEM: prologue instruction `%s %s` has no meaning in the term machine' % (mn, ops_))
+        tr.append('%s %s' % (mn, ops_))
+    mem0 = X.ld64(atom(('undef', 6)))
+    compare('first iteration spAddr0 (rax) = mx', m.get(0), X.and_(mem0, const(mask)), where, tr)
+    compare('first iteration spAddr1 (rdx) = ma', m.get(2), X.and_(V.srl(mem0, 32), const(mask)), where, tr)
+    compare('first iteration rbp = mx:ma with ma in the low half', m.get(5), ror(mem0, const(32)), where, tr)
+    # the loop head: which register addresses which group
+    ev, slots = _walk(_frag(o, 'X86-SPMIX-HSEM', 'randomx_program_loop_load'))
+    il = {e[2] for e in ev if e[1] == 'load' and e[4] == 'xor' and re.match(r'^r(8|9|1[0-5])$', e[5])}
+    fl = {e[2] for e in ev if e[1] == 'load' and e[4].startswith('cvtdq2pd')}
+    src = 'src/asm/program_loop_load.inc'
+    if len(il) == 1 and len(fl) == 1 and all(x.startswith('lea@') for x in il | fl):
+        ia, fa = re.search(r'\[(.*)\]', list(il)[0]).group(1), re.search(r'\[(.*)\]', list(fl)[0]).group(1)
+
+        def regs(t):
+            return sorted(x.split('*')[0] for x in t.replace(' ', '').split('+'))
+        R.check(regs(ia) == ['rax', 'rsi'], 'integer registers are read at rsi + rax (spAddr0)', src, expected='lea [rsi+rax]', found=ia)
+        R.check(regs(fa) == ['rdx', 'rsi'], 'floating-point registers are read at rsi + rdx (spAddr1)', src, expected='lea [rsi+rdx]', found=fa)
+    else:
+        raise AnalysisBroken('X86-SPMIX-HSEM: the load half of the loop does not form its two addresses by `lea` (%s / %s)' % (sorted(il), sorted(fl)))
+    # the end-of-iteration fragments give rax / rdx back
+    for sym in ('randomx_program_loop_store', 'randomx_program_loop_store_hard_aes', 'randomx_program_loop_store_soft_aes'):
+        state = {'rax': ('ok',), 'rdx': ('ok',)}
+        saved = {}
+        whr = 'src/jit_compiler_x86_static.S:%s' % sym
+        for off, mn, ops, raw in _frag(o, 'X86-SPMIX-HSEM', sym):
+            ops_ = re.sub(r'\s*#.*$', '', ops)
+            p = [x.strip() for x in ops_.split(',')] if ops_ else []
+            md = _mem(p[0]) if p else None
+            if mn == 'mov' and len(p) == 2 and md and md[0] == 'rsp':
+                if p[1] in ('rax', 'rdx') and state[p[1]] == ('ok',):
+                    saved[md[1]] = p[1]
+                else:
+                    saved.pop(md[1], None)
+                continue
+            if mn == 'mov' and len(p) == 2 and p[0] in ('rax', 'rdx') and _mem(p[1]) and _mem(p[1])[0] == 'rsp':
+                k = _mem(p[1])[1]
+                state[p[0]] = ('ok',) if saved.get(k) == p[0] else ('clobbered', '%s %s (slot %d holds %s)' % (mn, ops_, k, saved.get(k, 'something else')))
+                continue
+            if mn == 'call':
+                for r_ in ('rax', 'rdx'):
+                    state[r_] = ('clobbered', 'call (caller-saved register)')
+                continue
+            if mn in ('mul', 'div', 'idiv', 'cqo', 'cdq', 'cpuid', 'rdtsc') or (mn == 'imul' and len(p) == 1):
+                for r_ in ('rax', 'rdx'):
+                    state[r_] = ('clobbered', '%s %s' % (mn, ops_))
+                continue
+            if mn in ('push', 'sub', 'add') and p and p[0] == 'rsp' or mn in ('push', 'pop'):
+                raise AnalysisBroken('X86-SPMIX-HSEM: %s moves the stack pointer (`%s %s`); slot tracking not possible' % (sym, mn, ops_))
+            if p and p[0] in AXDX and mn not in ('cmp', 'test'):
+                state[AXDX[p[0]]] = ('clobbered', '%s %s' % (mn, ops_))
+            if mn == 'xchg' and len(p) == 2 and p[1] in AXDX:
+                state[AXDX[p[1]]] = ('clobbered', '%s %s' % (mn, ops_))
+        for r_ in ('rax', 'rdx'):
+            R.check(state[r_] == ('ok',), '%s leaves %s (%s) as it found it' % (sym, r_, 'spAddr0' if r_ == 'rax' else 'spAddr1'), whr,
+                    expected='not written, or saved to and restored from one stack slot', found='last write: %s' % state[r_][1] if len(state[r_]) > 1 else 'intact')
+    if undecided and not nviol[0]:
+        raise AnalysisBroken('X86-SPMIX-HSEM: ' + undecided[0])
+    for u in undecided:
+        R.note('X86-SPMIX-HSEM: ' + u)
